@@ -579,8 +579,16 @@ def _extract_coefficient_impl(expr: Expression, var: Variable) -> float:
                 return _extract_coefficient_impl(expr.left, var) * float(
                     expr.right.value
                 )
-            # For linear expressions, at least one side must be constant
-            # This fallback handles edge cases where constants are nested
+            # For linear expressions, at least one side must be a constant
+            # sub-expression (degree 0), e.g. (Constant(2) + 3) * x
+            if expr.left.degree == 0:
+                return _extract_constant_impl(expr.left) * _extract_coefficient_impl(
+                    expr.right, var
+                )
+            if expr.right.degree == 0:
+                return _extract_coefficient_impl(
+                    expr.left, var
+                ) * _extract_constant_impl(expr.right)
             return 0.0
 
         if expr.op == "/":
@@ -648,8 +656,16 @@ def _extract_constant_impl(expr: Expression) -> float:
     if isinstance(expr, Variable):
         return 0.0
 
-    # Vector expressions have no constant term (purely linear)
-    if isinstance(expr, (LinearCombination, VectorSum)):
+    # Sums of plain variables have no constant term (purely linear)
+    if isinstance(expr, VectorSum):
+        return 0.0
+    if isinstance(expr, LinearCombination):
+        if hasattr(expr.vector, "_expressions"):
+            # c @ (vector of expressions): elements may carry constants
+            total = 0.0
+            for i, elem in enumerate(expr.vector._expressions):
+                total += float(expr.coefficients[i]) * _extract_constant_impl(elem)
+            return total
         return 0.0
 
     if isinstance(expr, BinaryOp):
@@ -669,7 +685,11 @@ def _extract_constant_impl(expr: Expression) -> float:
                 return float(expr.left.value) * _extract_constant_impl(expr.right)
             if isinstance(expr.right, Constant):
                 return _extract_constant_impl(expr.left) * float(expr.right.value)
-            return 0.0
+            # Linear product: one factor is a constant sub-expression, so the
+            # constant term is the product of the factors' constant terms
+            return _extract_constant_impl(expr.left) * _extract_constant_impl(
+                expr.right
+            )
 
         if expr.op == "/":
             if isinstance(expr.right, Constant):
@@ -681,6 +701,9 @@ def _extract_constant_impl(expr: Expression) -> float:
                 exp = int(expr.right.value)
                 if exp == 0:
                     return 1.0  # x**0 = 1
+                # e**1 keeps e's constant; for exp >= 2 a linear expression
+                # has a constant base, whose constant term is its value
+                return _extract_constant_impl(expr.left) ** exp
             return 0.0
 
     if isinstance(expr, UnaryOp):
@@ -919,7 +942,22 @@ def _extract_all_coefficients_impl(
                     expr.left, var_index, result, multiplier * float(expr.right.value)
                 )
                 return
-            # Both sides non-constant - no linear contribution
+            # Neither side is a Constant node: for a linear product one side
+            # is a constant sub-expression (degree 0), e.g. (Constant(2) + 3) * x
+            if expr.left.degree == 0:
+                _extract_all_coefficients_impl(
+                    expr.right,
+                    var_index,
+                    result,
+                    multiplier * _extract_constant_impl(expr.left),
+                )
+            elif expr.right.degree == 0:
+                _extract_all_coefficients_impl(
+                    expr.left,
+                    var_index,
+                    result,
+                    multiplier * _extract_constant_impl(expr.right),
+                )
             return
 
         if expr.op == "/":
